@@ -235,20 +235,33 @@ static std::string listOf(const std::vector<std::string> &v)
     return r + ")";
 }
 
-static std::string run(const hx::Sexp &e)
+static ModelPtr buildWithEquivs(const hx::Sexp &e, std::string &err)
 {
     auto model = hxe::buildModel(e[1]);
     const auto &eq = e[2];
     for (size_t i = 1; i < eq.size(); ++i) {
         const auto &q = eq[i];
         auto c1 = compAt(model, q[1].atom), c2 = compAt(model, q[3].atom);
-        if (c1 == nullptr || c2 == nullptr) return "bad-equiv";
+        if (c1 == nullptr || c2 == nullptr) { err = "bad-equiv"; return nullptr; }
         auto v1 = c1->variable(size_t(atol(q[2].atom.c_str()))), v2 = c2->variable(size_t(atol(q[4].atom.c_str())));
-        if (v1 == nullptr || v2 == nullptr) return "bad-equiv";
+        if (v1 == nullptr || v2 == nullptr) { err = "bad-equiv"; return nullptr; }
         Variable::addEquivalence(v1, v2);
         Variable::setEquivalenceMappingId(v1, v2, q[5].text());
         Variable::setEquivalenceConnectionId(v1, v2, q[6].text());
     }
+    return model;
+}
+
+static std::string run(const hx::Sexp &e)
+{
+    std::string err;
+    auto model = buildWithEquivs(e, err);
+    if (model == nullptr) return err;
+    // a second model object with the same content (what a re-parse or a clone gives)
+    auto modelB = buildWithEquivs(e, err);
+    computeShape(modelB);
+    std::vector<Slot> slotsB = gSlots;
+    std::vector<size_t> visitsB = gVisits;
     computeShape(model);
     std::ostringstream out;
     out << "(shape (kinds";
@@ -264,6 +277,7 @@ static std::string run(const hx::Sexp &e)
         const auto &op = ops[i];
         std::string h = op.head(), res = "ok";
         if (h == "setmodel") annotator->setModel(model);
+        else if (h == "switch") { std::swap(model, modelB); std::swap(gSlots, slotsB); annotator->setModel(model); }
         else if (h == "edit") { size_t k = size_t(atol(op[1].atom.c_str())); if (k < gSlots.size()) setIdDirect(gSlots[k], op[2].text()); }
         else if (h == "assignall") res = annotator->assignAllIds() ? "b1" : "b0";
         else if (h == "assignids") res = annotator->assignIds(CellmlElementType(atoi(op[1].atom.c_str()))) ? "b1" : "b0";
